@@ -382,7 +382,56 @@ func gen(seed uint64, tier string) {
 		a, b := genPair(r, ka, kb, class)
 		closed := r.Intn(5) != 0
 		f := scaleFor(r)
-		emit(withEmptyMember(r, shapes.ScaleGeom(a.ToGeom(1, closed), f).(geom.Polygonal)), withEmptyMember(r, shapes.ScaleGeom(b.ToGeom(1, closed), f).(geom.Polygonal)))
+		ga := withEmptyMember(r, shapes.ScaleGeom(a.ToGeom(1, closed), f).(geom.Polygonal))
+		gb := withEmptyMember(r, shapes.ScaleGeom(b.ToGeom(1, closed), f).(geom.Polygonal))
+		// an operand without any contour (four spellings), either role, against closed and unclosed rings:
+		// the paths that never reach the sweep (tables, shortcuts) must still return closed rings
+		if i%25 == 7 {
+			var e geom.Polygonal
+			switch (i / 25) % 4 {
+			case 0:
+				e = geom.Polygon{}
+			case 1:
+				e = geom.MultiPolygon{}
+			case 2:
+				e = geom.MultiPolygon{geom.Polygon{}}
+			default:
+				e = geom.Polygon(nil)
+			}
+			if (i/100)%2 == 0 {
+				gb = e
+			} else {
+				ga = e
+			}
+		}
+		emit(ga, gb)
+	}
+	// bounding boxes that share exactly ONE corner, neither within the other (what a corner-wise box
+	// comparison of the *Bounds shortcuts can confuse with "equal" / "within"): a box against a triangle
+	// whose box has the same Min (or Max) corner but reaches beyond it; no vertex on an edge of the other
+	for k := 0; k < npairs/40+4; k++ {
+		x0, y0 := float64(r.Range(-5, 5)), float64(r.Range(-5, 5))
+		w, h := float64(r.Range(2, 6)), float64(r.Range(2, 6))
+		a, b2, c, d := float64(r.Range(1, 4)), float64(r.Range(1, 4)), float64(r.Range(1, 5)), float64(r.Range(1, 5))
+		// (a*b2 < w*h: the triangle cuts the far corner of the box off; otherwise it misses the box)
+		x1, y1 := x0+w, y0+h
+		var tri geom.Polygon
+		if k%2 == 0 {
+			tri = geom.Polygon{{{X: x0, Y: y1 + a}, {X: x1 + b2, Y: y0}, {X: x1 + c, Y: y1 + d}, {X: x0, Y: y1 + a}}}
+		} else {
+			tri = geom.Polygon{{{X: x1, Y: y0 - a}, {X: x0 - b2, Y: y1}, {X: x0 - c, Y: y0 - d}, {X: x1, Y: y0 - a}}}
+		}
+		f := scaleFor(r)
+		box := shapes.ScaleGeom(bx(x0, y0, x1, y1), f).(geom.Polygonal)
+		var other geom.Polygonal = shapes.ScaleGeom(tri, f).(geom.Polygonal)
+		if k%4 >= 2 {
+			other = geom.MultiPolygon{other.(geom.Polygon)}
+		}
+		if k%5 == 4 {
+			emit(other, box)
+		} else {
+			emit(box, other)
+		}
 	}
 	// histories: the SAME two operand objects, their coordinates overwritten in place between calls
 	for h := 0; h < npairs/25; h++ {
